@@ -514,6 +514,17 @@ func (fr *Frame) binop(st *State, i *ssa.BinOp) Value {
 		}
 		return r
 	}
+	if sx, isS := xv.(*SliceV); isS && i.Op == token.ADD {
+		if sy, isT := yv.(*SliceV); isT {
+			// string concatenation: a new string of the summed length (its characters are arbitrary here: only
+			// error messages are built this way in the code under contract)
+			fr.v.fresh++
+			nv := fr.v.symSlice(fmt.Sprintf("concat!%d", fr.v.fresh), types.Typ[types.Uint8], false, true).(*SliceV)
+			st.pc = F.And(st.pc, F.Eq(nv.Len, F.Add(sx.Len, sy.Len)))
+			fr.v.assume("string concatenation yields a string of the summed length whose characters are not modelled")
+			return nv
+		}
+	}
 	x, okx := xv.(*Term)
 	y, oky := yv.(*Term)
 	if !okx || !oky {
